@@ -16,6 +16,7 @@ let run_job (job : Sx.t) : string =
   | "sizes" -> Jprog.job_sizes job
   | "lowerm" -> Jprog.job_lowerm job
   | "tsem" -> Jprog.job_tsem job
+  | "frag" -> Jprog.job_frag job
   | "bristol-out" -> Jbristol.job_bristol_out job
   | "bristol-in" -> Jbristol.job_bristol_in job
   | "exhaust" -> Jexhaust.job_exhaust job
